@@ -30,14 +30,16 @@ for c in checks:
         print(c, seed, r.returncode, line[:1])
 if not ok:
     sys.exit("seed not confirmed; not imported")
-d = V / "seeded" / f"{pid}-{i}"
+import os
+label = os.environ.get("IMPORT_LABEL", "") + str(i)
+d = V / "seeded" / f"{pid}-{label}"
 d.mkdir(parents=True, exist_ok=True)
 shutil.copy(sd / f"patch{i}.diff", d / "patch.diff")
 shutil.copy(sd / f"demo{i}.py", d / "demo.py")
 notes = (sd / f"notes{i}.md").read_text() if (sd / f"notes{i}.md").exists() else ""
 (d / "notes.md").write_text(notes)
 meta = {"property": pid, "needs": notes[:1500], "confirmed": {"applies": True, "suite": t, "demo_clean_exit": r0, "demo_patched_exit": r1},
-        "ran": [f"tools/with_patched_repo -p seeded/{pid}-{i}/patch.diff -- ./check {c}" for c in checks],
+        "ran": [f"tools/with_patched_repo -p seeded/{pid}-{label}/patch.diff -- ./check {c}" for c in checks],
         "check_results": results, "caught": any(v["exit"] == 1 for v in results.values())}
 (d / "meta.json").write_text(json.dumps(meta, indent=1) + "\n")
 sh("rm -rf replays", cwd=V)
